@@ -1029,10 +1029,10 @@ Proof.
         let '(rb, xb, wb) := buffer_frame xa msg w0 in
         match rb with
         | RErr (EWriteBufferFull f') => (ROk false, set_additional xb f', wb)
-        | RErr e => (RErr e, xb, wb)
+        | RErr e => (RErr e, set_unflushed xb true, wb)
         | RPanic s => (RPanic s, xb, wb)
         | ROutOfFuel => (ROutOfFuel, xb, wb)
-        | ROk _ => (ROk true, xb, wb)
+        | ROk _ => (ROk true, set_unflushed xb true, wb)
         end
     | None => (ROk (x_unflushed x0), x0, w0)
     end = (r1, x1, w1) -> x_incomplete x1 = x_incomplete x0).
@@ -1601,9 +1601,9 @@ Proof.
   - cbv zeta. pose proof (buffer_frame_no_panic (set_additional_raw x0 None) msg w0) as Pb.
     destruct (buffer_frame (set_additional_raw x0 None) msg w0) as [[rb xb] wb]. cbn [fst] in Pb.
     destruct rb as [u'|e|s|]; [ | | destruct Pb | exact I].
-    + destruct (role_eqb (x_role xb) Server && closing_done (x_state xb) && _); [|exact I].
-      pose proof (write_out_buffer_no_panic (x_codec xb) wb) as Pw.
-      destruct (write_out_buffer (x_codec xb) wb) as [[rw c'] w2]. cbn [fst] in Pw.
+    + destruct (role_eqb _ Server && closing_done _ && _); [|exact I].
+      pose proof (write_out_buffer_no_panic (x_codec (set_unflushed xb true)) wb) as Pw.
+      destruct (write_out_buffer (x_codec (set_unflushed xb true)) wb) as [[rw c'] w2]. cbn [fst] in Pw.
       destruct rw; try exact I. destruct Pw.
     + destruct e; try exact I.
       destruct (role_eqb _ Server && closing_done _ && _); [|exact I].
